@@ -10,6 +10,7 @@ import os
 import random
 import tempfile
 
+from .. import caller
 from .. import common
 from .. import shellbuild
 from .. import model as M
@@ -83,6 +84,20 @@ def eval_case(case: dict) -> dict:
             mech = f'parse-differs:{diff["kind"]}:{common.strip_indices(diff["path"])}'
             res['violations'].append({'mechanism': mech, 'detail': diff, 'case': case})
         res['counts']['entries_compared'] = sum(len(v) for v in expect.values())
+        # the caller logs what it was handed and derives names from it (vlib.caller); what the
+        # parse result holds is still what was written, in source order
+        try:
+            with common.quiet():
+                caller.after_parse(fc)
+            again = M.canon_filecontents(fc)
+        except Exception as exc:  # pylint: disable=broad-except
+            again = {'exception': common.classify_exception(exc)}
+        res['counts']['results_compared_again_after_use_by_the_caller'] = 1
+        diff = common.first_diff(got, again)
+        if diff:
+            mech = f'parse-result-changes-under-use:{diff["kind"]}:' \
+                   f'{common.strip_indices(diff["path"])}'
+            res['violations'].append({'mechanism': mech, 'detail': diff, 'case': case})
         for kind, entries in expect.items():
             if entries:
                 res['counts'][f'docs_with_{kind}'] = 1
@@ -105,7 +120,7 @@ def _worker(arg):
 def main(tier: str) -> int:
     run = common.Run(PROP, tier)
     n = 300 if tier == 'quick' else 100000
-    run.require('entries_compared')
+    run.require('entries_compared', 'results_compared_again_after_use_by_the_caller')
     for item, res in run.pmap(_worker, [(run.seed, i) for i in range(n)], chunksize=25):
         common.absorb(run, {'seed': item[0], 'stream': item[1]}, res)
     return run.finish(
